@@ -36,14 +36,14 @@ impl io::Read for Src {
         }
         let avail = s.data.len() - s.pos;
         let maxk = avail.min(buf.len());
-        let (sizes, mut costs) = size_menu(maxk, s.data.len() > 32);
-        let deliver = costs.len();
+        let mut menu = size_menu(maxk, s.data.len() > 32);
+        let deliver = menu.n;
         if s.interrupts < s.max_interrupts {
-            costs.push(1);
+            menu.push(1);
         }
-        let c = s.ch.borrow_mut().choose("read", &costs);
+        let c = s.ch.borrow_mut().choose("read", menu.costs());
         if c < deliver {
-            let k = sizes[c];
+            let k = menu.sizes[c];
             let p = s.pos;
             buf[..k].copy_from_slice(&s.data[p..p + k]);
             s.pos += k;
@@ -130,14 +130,14 @@ impl io::Write for Sink {
             panic!("HORIZON: the sink was written more than 2000 times in one execution (livelock)");
         }
         let n = buf.len();
-        let (sizes, mut costs) = size_menu(n, s.coarse);
-        let accept = costs.len();
+        let mut menu = size_menu(n, s.coarse);
+        let accept = menu.n;
         if s.interrupts < s.max_interrupts {
-            costs.push(1);
+            menu.push(1);
         }
-        let c = s.ch.borrow_mut().choose("write", &costs);
+        let c = s.ch.borrow_mut().choose("write", menu.costs());
         if c < accept {
-            let k = sizes[c];
+            let k = menu.sizes[c];
             s.received.extend_from_slice(&buf[..k]);
             return Ok(k);
         }
